@@ -200,7 +200,7 @@ func finale() []Step {
 func generate(w *lib.Writer, r *lib.Rand, tier string) {
 	n, lo, hi := 720, 20, 80
 	if tier == "thorough" {
-		n, lo, hi = 12000, 30, 250
+		n, lo, hi = 6000, 30, 200
 	}
 	news := []string{"NewTable", "CreateTable", "lua"}
 	for i := 0; i < n; i++ {
